@@ -190,6 +190,7 @@ class DepEngine(object):
         self.stack = []
         self.notes = []
         self.local_funcs = [{}]
+        self.globals = {}        # module-level containers written by the analysed code: name -> join of what was stored (weak updates)
 
     # ------------------------------------------------------------------ entry
     def run(self, fnode, qual, params):
@@ -199,7 +200,15 @@ class DepEngine(object):
         names = [x.arg for x in a.posonlyargs + a.args + a.kwonlyargs] + ([a.vararg.arg] if a.vararg else []) + ([a.kwarg.arg] if a.kwarg else [])
         for n in names:
             env.set(n, params.get(n, AV(['P:' + n], ['P:' + n])))
-        return self.call_body(fnode, qual, env, frozenset(), 0)
+        # two passes: what a memo table hands back on the first pass is what the second pass stored into it
+        out = None
+        for _ in range(2):
+            self.sites = []
+            e2 = env.copy()
+            out = self.call_body(fnode, qual, e2, frozenset(), 0)
+            if not self.globals:
+                break
+        return out
 
     def call_body(self, fnode, qual, env, ctx, depth):
         fr = Frame(qual, depth)
@@ -480,7 +489,7 @@ class DepEngine(object):
             return
         if isinstance(target, ast.Subscript):
             k = self.ev(target.slice, env, ctx)
-            self.mutate(target.value, env, AV(v.d | k.d | ctx, v.v, alts=None), ctx, kind='write', where=getattr(target, 'lineno', 0))
+            self.mutate(target.value, env, AV(v.d | k.d | ctx, v.v, v.elts, None), ctx, kind='write', where=getattr(target, 'lineno', 0))
             return
         if isinstance(target, ast.Attribute):
             self.mutate(target.value, env, AV(v.d | ctx, v.v), ctx, kind='attr')
@@ -500,6 +509,11 @@ class DepEngine(object):
         """in-place change of the object named by recv: w is what is written (an AV; its layerings are appended)"""
         name = self.root_name(recv)
         if name is None:
+            return
+        if env.get(name) is None and name in self.module.consts:
+            # a module-level container (memo table): remember what is stored in it
+            cur = self.globals.get(name)
+            self.globals[name] = join(cur, AV(w.d | ctx, w.v, w.elts, None)) if cur is not None else AV(w.d | ctx, w.v, w.elts, None)
             return
         names = set([name]) | env.alias.get(name, set())
         direct = isinstance(recv, ast.Name)
@@ -533,6 +547,9 @@ class DepEngine(object):
 
     def lookup_global(self, name):
         m = self.module
+        if name in self.globals:
+            g = self.globals[name]
+            return AV(g.d, g.v | frozenset(['G:' + name]), (g,) if g.elts is not None else None)
         if name in m.functions:
             return AV((), ['F:' + name])
         if name in m.consts:
@@ -650,6 +667,10 @@ class DepEngine(object):
             cs = [self.ev(c, env, ctx) for c in node.comparators]
             for c in cs:
                 d |= c.d
+            # comparisons against short string markers ('*', '**', '!') are recorded as test features
+            for x in [node.left] + list(node.comparators):
+                if isinstance(x, ast.Constant) and isinstance(x.value, str) and 0 < len(x.value) <= 3:
+                    d.add('TEST:' + x.value)
             const = NOCONST
             if len(node.ops) == 1:
                 l = self.ev(node.left, env, ctx)
@@ -911,6 +932,9 @@ class DepEngine(object):
             if not args and not kws and name in ('dict', 'list', 'tuple', 'set', 'frozenset'):
                 const = {'dict': {}, 'list': (), 'tuple': (), 'set': (), 'frozenset': ()}[name]
             return AV(alld, allv, elts, alts, const)
+        if name == 'isinstance' and len(node.args) == 2:
+            names = [n_.id for n_ in ast.walk(node.args[1]) if isinstance(n_, ast.Name)] + [n_.attr for n_ in ast.walk(node.args[1]) if isinstance(n_, ast.Attribute)]
+            return AV(alld | set('TEST:isinstance:' + n_ for n_ in names), ())
         if name in PURE_SCALAR_FUNCS:
             return AV(alld, ())
         if name in PURE_PICK_FUNCS:
